@@ -9,14 +9,17 @@ ID = "C05"
 THEOREMS = ["c05_link_is_alias", "c05_link_keeps_attrs", "c05_write_seen_through_all_paths",
             "c05_refused_append_unchanged", "c05_linked_dimension_is_alias", "c05_linked_set_dimension",
             "c05_dimension_write_through", "c05_ticks_and_link_replace_each_other"]
-PROFILE = {"small_names": True,
+PROFILE = {"small_names": True, "path_sweep": True,
            "weights": {"create": 7, "mtag": 2, "feature": 4, "append": 16, "lookup_link": 6, "set_attr": 8, "set_link": 4,
                        "remove": 2, "delete": 1, "probe_link": 2, "reopen": 0.6, "bad": 0.3, "lookup": 2}}
 RULE = ("alias histories: a target linked from many lists (groups' member lists, references, source lists, feature data, "
         "metadata), lists in several blocks, EQUAL NAMES IN DIFFERENT BLOCKS (two-name pool), attributes changed through handles "
         "obtained via link lists and read back through the owning container (the canonical walk), appends of wrong-kind and "
         "foreign-block entities; the walk is compared with the model (where a link IS the target's address) after every operation "
-        "and every member list / reference list / feature is checked to stay inside its block.")
+        "and every member list / reference list / feature is checked to stay inside its block. At every reopen and at the end of "
+        "a history every object reached through a link (member lists, references, positions/extents, feature data, source "
+        "lists, metadata, section links) must answer every public property / reader method like the object reached through "
+        "its owning container.")
 
 
 def predicate(h):
@@ -25,6 +28,13 @@ def predicate(h):
         info = h["infos"][i]
         if info["cross_block"]:
             out.append(("a link list / feature holds an entity of another block", i, {"op": op, "foreign_ids": len(info["cross_block"])}))
+    # at every reopen and at the end: every object reached through a link answers every read accessor (reflection over the
+    # classes) like the object reached through its owning container
+    for d in h.get("path_diffs") or []:
+        if d["ndiffs"]:
+            out.append(("an entity reached through a link answers differently from the entity reached through its container",
+                        min(d["step"] - 1, len(h["ops"]) - 1),
+                        {"accessor": d["diffs"][0][0], "through_container": d["diffs"][0][1], "through_link": d["diffs"][0][2], "count": d["ndiffs"]}))
     return out
 
 
